@@ -607,6 +607,22 @@ class ModelMixin:
         d = box(self.materialize(args[1], st)) if len(args) > 1 else Val.N
         return [(st, V("val", z3.If(z3.Select(st.read("dict.has", r), kb), z3.Select(st.read("dict.map", r), kb), d)))]
 
+    def m_dict_setdefault(self, recv, args, kw, st, node):
+        """d.setdefault(k, default): the value under k when present; otherwise default is stored under k and returned"""
+        r = self.as_ref(recv, st)
+        kb = box(self.materialize(args[0], st))
+        dv = args[1] if len(args) > 1 else VNONE
+        out = []
+        for s2, present in self.branch(st, z3.Select(st.read("dict.has", r), kb), "dict.setdefault: key present"):
+            if present:
+                v = z3.Select(s2.read("dict.map", r), kb)
+                vt = self.dict_types(recv.elem)[1] if recv.elem else None
+                out.append((s2, self.unbox(v, vt, s2) if vt else V("val", v)))
+            else:
+                self.dict_store(s2, r, args[0], dv)
+                out.append((s2, dv))
+        return out
+
     def m_const_get(self, recv, args, kw, st, node):
         x = recv.xs
         d = args[1] if len(args) > 1 else VNONE
@@ -645,11 +661,25 @@ class ModelMixin:
         return [(st, VNONE)]
 
     # str / bytes methods
+    def _affix(self, fn, recv, args, st, node):
+        """str.startswith / endswith with one affix or a tuple of affixes (any of them)"""
+        a = args[0]
+        if a.k == "str":
+            return [(st, vbool(fn(a.t, recv.t)))]
+        items = None
+        if a.k == "tuple":
+            items = a.xs
+        elif a.k == "const" and isinstance(a.xs, (tuple, list)):
+            items = [self.lit(x) for x in a.xs]
+        if items is None or not all(x.k == "str" for x in items):
+            raise Unsupported(f"{self.where(node)}: startswith / endswith of {a!r}")
+        return [(st, vbool(z3.Or([fn(x.t, recv.t) for x in items] or [z3.BoolVal(False)])))]
+
     def m_str_startswith(self, recv, args, kw, st, node):
-        return [(st, vbool(z3.PrefixOf(args[0].t, recv.t)))]
+        return self._affix(z3.PrefixOf, recv, args, st, node)
 
     def m_str_endswith(self, recv, args, kw, st, node):
-        return [(st, vbool(z3.SuffixOf(args[0].t, recv.t)))]
+        return self._affix(z3.SuffixOf, recv, args, st, node)
 
     def m_str_find(self, recv, args, kw, st, node):
         return [(st, vint(z3.IndexOf(recv.t, args[0].t, 0)))]
